@@ -45,17 +45,19 @@ def decodeBits (bits : Nat) : F64Class :=
   else if e == 0 then .finite ⟨neg, m, -1074⟩
   else .finite ⟨neg, m + 2 ^ 52, (e : Int) - 1075⟩
 
+/-- `some |x|` iff `trunc(x) == x` (the value is an integer) -/
+def Finite.absInteger (f : Finite) : Option Nat :=
+  if f.exp2 ≥ 0 then some (f.mant * 2 ^ f.exp2.toNat)
+  else if f.mant % 2 ^ (-f.exp2).toNat == 0 then some (f.mant / 2 ^ (-f.exp2).toNat)
+  else none
+
 /-- `some n` iff `trunc(x) == x && |x| < 2^53`, with `n = x.to_i64()` -/
 def integerValue (bits : Nat) : Option Int :=
   match decodeBits bits with
   | .nan => none
   | .inf _ => none
   | .finite f =>
-    let abs? : Option Nat :=
-      if f.exp2 ≥ 0 then some (f.mant * 2 ^ f.exp2.toNat)
-      else if f.mant % 2 ^ (-f.exp2).toNat == 0 then some (f.mant / 2 ^ (-f.exp2).toNat)
-      else none
-    match abs? with
+    match f.absInteger with
     | some a => if a < 2 ^ 53 then some (if f.neg then -(a : Int) else (a : Int)) else none
     | none => none
 
@@ -225,20 +227,28 @@ def decimalValue : List Char → Option Rat
   | '-' :: s => (unsignedValue s).map (fun v => -v)
   | s => unsignedValue s
 
-/-- the contract assumed of `pretty_dtoa` output for a finite value: `-? digit+ ('.' digit*)? ('e' '-'? digit+)?` -/
-def wellFormedRaw (raw : List Char) : Bool :=
-  let body := match raw with
-    | '-' :: r => r
-    | r => r
+/-- an optional `-` in front removed -/
+def stripMinus : List Char → List Char
+  | '-' :: x => x
+  | x => x
+
+/-- exponent part of `pretty_dtoa` output: nothing, or `e` `-`? digit+ -/
+def wfExp : List Char → Bool
+  | [] => true
+  | c :: r => c == 'e' && !(stripMinus r).isEmpty && (spanDigits (stripMinus r)).2.isEmpty
+
+/-- what follows an optional `'.' digit*` -/
+def afterFrac : List Char → List Char
+  | '.' :: r => (spanDigits r).2
+  | r => r
+
+def wellFormedAbs (body : List Char) : Bool :=
   let sp := spanDigits body
-  !sp.1.isEmpty &&
-    (let afterFrac := match sp.2 with
-      | '.' :: r => (spanDigits r).2
-      | r => r
-     match afterFrac with
-     | [] => true
-     | 'e' :: '-' :: r => !r.isEmpty && (spanDigits r).2.isEmpty
-     | 'e' :: r => !r.isEmpty && (spanDigits r).2.isEmpty
-     | _ => false)
+  !sp.1.isEmpty && wfExp (afterFrac sp.2)
+
+/-- the contract assumed of `pretty_dtoa` output for a finite value: `-? digit+ ('.' digit*)? ('e' '-'? digit+)?` -/
+def wellFormedRaw : List Char → Bool
+  | '-' :: r => wellFormedAbs r
+  | r => wellFormedAbs r
 
 end NumbatModel.NumFmt
